@@ -26,6 +26,7 @@ type c16Obj struct {
 	id       string
 	contract constant.BoltContractAddress
 	key      string // state key of the record
+	chain    string // owning appchain (rules; "" = derived from the id)
 }
 
 // c16Svc4 is a service of appchain A that is not registered in the prelude: its
@@ -33,11 +34,11 @@ type c16Obj struct {
 const c16Svc4 = "0xB2dD6977169c5067d3729E3deB9a82c3e7502BF4"
 
 var c16Objs = map[string]*c16Obj{
-	"chainA": {"chainA", "appchain", fix.ChainA, constant.AppchainMgrContractAddr, "appchain-" + fix.ChainA},
-	"svcA1":  {"svcA1", "service", fix.ChainA + ":" + fix.Svc1, constant.ServiceMgrContractAddr, "service-" + fix.ChainA + ":" + fix.Svc1},
-	"svcA3":  {"svcA3", "service", fix.ChainA + ":" + fix.Svc3, constant.ServiceMgrContractAddr, "service-" + fix.ChainA + ":" + fix.Svc3},
-	"svcA4":  {"svcA4", "service", fix.ChainA + ":" + c16Svc4, constant.ServiceMgrContractAddr, "service-" + fix.ChainA + ":" + c16Svc4},
-	"svcB2":  {"svcB2", "service", fix.ChainB + ":" + fix.Svc2, constant.ServiceMgrContractAddr, "service-" + fix.ChainB + ":" + fix.Svc2},
+	"chainA": {"chainA", "appchain", fix.ChainA, constant.AppchainMgrContractAddr, "appchain-" + fix.ChainA, ""},
+	"svcA1":  {"svcA1", "service", fix.ChainA + ":" + fix.Svc1, constant.ServiceMgrContractAddr, "service-" + fix.ChainA + ":" + fix.Svc1, ""},
+	"svcA3":  {"svcA3", "service", fix.ChainA + ":" + fix.Svc3, constant.ServiceMgrContractAddr, "service-" + fix.ChainA + ":" + fix.Svc3, ""},
+	"svcA4":  {"svcA4", "service", fix.ChainA + ":" + c16Svc4, constant.ServiceMgrContractAddr, "service-" + fix.ChainA + ":" + c16Svc4, ""},
+	"svcB2":  {"svcB2", "service", fix.ChainB + ":" + fix.Svc2, constant.ServiceMgrContractAddr, "service-" + fix.ChainB + ":" + fix.Svc2, ""},
 }
 
 // declared state machines (transcribed from the governed objects' FSM declarations):
@@ -75,8 +76,22 @@ var c16Edges = func() map[string][]c16Edge {
 		{"available", "logouting", "submit:logout"}, {"updating", "logouting", "submit:logout"},
 		{"logouting", "forbidden", "approve"}, {"logouting", "*last", "reject"},
 	}
-	return map[string][]c16Edge{"appchain": common, "service": svc, "role": role, "node": node}
+	// rules: a master-rule update moves the candidate (target of the step) and the current
+	// master (its peer) together; an appchain whose master rule is being replaced is paused
+	rule := []c16Edge{
+		{"bindable", "binding", "submit:update"}, {"binding", "available", "approve"}, {"binding", "bindable", "reject"},
+		{"available", "unbinding", "peer:submit:update"}, {"unbinding", "bindable", "peer:approve"}, {"unbinding", "available", "peer:reject"},
+		{"bindable", "forbidden", "submit:logout"},
+	}
+	for _, s := range []string{"bindable", "available", "binding", "unbinding", "forbidden"} {
+		rule = append(rule, c16Edge{s, "unavailable", "cascade:clear"})
+	}
+	chainWithRules := append([]c16Edge{}, common...)
+	chainWithRules = append(chainWithRules, c16Edge{"available", "frozen", "peer:submit:update"}, c16Edge{"frozen", "available", "peer:approve"})
+	return map[string][]c16Edge{"appchain": common, "service": svc, "role": role, "node": node, "rule": rule, "appchain-with-rules": chainWithRules}
 }()
+
+var c16BuiltinRule = map[string]bool{"0x00000000000000000000000000000000000000a0": true, "0x00000000000000000000000000000000000000a1": true, "0x00000000000000000000000000000000000000a2": true}
 
 var c16Available = map[string]bool{"available": true, "freezing": true}
 
@@ -87,9 +102,10 @@ type c16Inst struct {
 	status   map[string]string // last observed status per object
 	last     *c16Step
 	restarts int
-	regOpen  string // id of the pending registration proposal of service A:s4 ("" = none)
+	regOpen  string   // id of the pending registration proposal of service A:s4 ("" = none)
 	open2    *c16Open // a logout of appchain A submitted while another proposal on A is open (it pauses that one)
 	objs     map[string]*c16Obj
+	rules    bool // the rule exploration (proof world: chains F and W)
 }
 
 type c16Open struct {
@@ -122,6 +138,21 @@ func (in *c16Inst) readStatus(o *c16Obj) string {
 	if !ok {
 		return "none"
 	}
+	if o.kind == "rule" {
+		var list []struct {
+			Address string `json:"address"`
+			Status  string `json:"status"`
+		}
+		if err := json.Unmarshal(data, &list); err != nil {
+			panic(err)
+		}
+		for _, r := range list {
+			if r.Address == o.id {
+				return r.Status
+			}
+		}
+		return "none"
+	}
 	var rec struct {
 		Status string `json:"status"`
 	}
@@ -139,10 +170,31 @@ func (in *c16Inst) readAll() map[string]string {
 	return m
 }
 
+var c16ChainAdmin = map[string]crypto.PrivateKey{fix.ChainA: fix.KA, fix.ChainB: fix.KB, fix.ChainF: fix.KF, fix.ChainW: fix.KW}
+
+// c16Chain: the appchain an object belongs to ("" for roles and nodes).
+func c16Chain(o *c16Obj) string {
+	switch o.kind {
+	case "rule":
+		return o.chain
+	case "appchain":
+		return o.id
+	case "service":
+		return strings.Split(o.id, ":")[0]
+	}
+	return ""
+}
+
 func c16Submitter(obj *c16Obj, event string) crypto.PrivateKey {
 	if event == "logout" {
 		if strings.HasPrefix(obj.id, fix.ChainB) {
 			return fix.KB
+		}
+		if strings.HasPrefix(obj.id, fix.ChainF) {
+			return fix.KF
+		}
+		if strings.HasPrefix(obj.id, fix.ChainW) {
+			return fix.KW
 		}
 		return fix.KA // logout is reserved to the chain's own admin
 	}
@@ -155,15 +207,22 @@ func (in *c16Inst) apply(op string) bool {
 	st := &c16Step{desc: op, before: in.readAll()}
 	switch f[0] {
 	case "sub": // sub:<obj>:<event>
-		if in.open != nil {
-			return false
-		}
 		o := in.objs[f[1]]
 		if o == nil {
 			return false
 		}
+		if in.open != nil && !(o.kind == "rule" && f[2] == "logout") {
+			return false // one proposal at a time (a rule logout needs no proposal)
+		}
 		method := map[string]string{"freeze": "Freeze", "activate": "Activate", "logout": "Logout", "register": "Register", "update": "Update"}[f[2]] + map[string]string{"appchain": "Appchain", "service": "Service", "role": "Role", "node": "Node"}[o.kind]
 		switch {
+		case o.kind == "rule" && f[2] == "update":
+			st.res = w.Block(w.InvokeTx(c16ChainAdmin[o.chain], o.contract, "UpdateMasterRule", pb.String(o.chain), pb.String(o.id), pb.String("reason")))
+		case o.kind == "rule" && f[2] == "logout": // no proposal: takes effect at once
+			st.res = w.Block(w.InvokeTx(c16ChainAdmin[o.chain], o.contract, "LogoutRule", pb.String(o.chain), pb.String(o.id)))
+			st.target, st.trigger, st.accepted = f[1], "submit:logout", st.res.Receipts[0].IsSuccess()
+			in.last = st
+			return true
 		case o.kind == "node" && f[2] == "register":
 			st.res = w.Block(w.InvokeTx(fix.AdminKeys[1], o.contract, method, pb.String(o.id), pb.String("nvpNode"), pb.String(""), pb.Uint64(0), pb.String("nvp-c16"), pb.String(fix.ChainA), pb.String("reason")))
 		case o.kind == "node" && f[2] == "update":
@@ -277,7 +336,13 @@ func (in *c16Inst) check(c *mc.Ctx, path []string) {
 	if st == nil {
 		return
 	}
-	rep := map[string]interface{}{"engine": "c16.govmc", "ops": path}
+	engine := "c16.govmc"
+	if in.rules {
+		engine = "c16.govmc-rules"
+	} else if in.objs["admin3"] != nil {
+		engine = "c16.govmc-rolenode"
+	}
+	rep := map[string]interface{}{"engine": engine, "ops": path}
 	bad := func(sig, format string, a ...interface{}) {
 		c.Report("C16|"+sig, fmt.Sprintf(format, a...)+fmt.Sprintf(" [step %s; statuses before: %s] after %s", st.desc, statusString(st.before), joinOps(path)), rep)
 	}
@@ -295,7 +360,11 @@ func (in *c16Inst) check(c *mc.Ctx, path []string) {
 			continue
 		}
 		okEdge := false
-		for _, e := range c16Edges[o.kind] {
+		edges := c16Edges[o.kind]
+		if o.kind == "appchain" && in.rules {
+			edges = c16Edges["appchain-with-rules"]
+		}
+		for _, e := range edges {
 			if e.from != from {
 				continue
 			}
@@ -305,8 +374,19 @@ func (in *c16Inst) check(c *mc.Ctx, path []string) {
 			}
 			direct := st.target == name && e.trigger == st.trigger
 			cascade := strings.HasPrefix(e.trigger, "cascade:") && st.target == "chainA" && strings.HasPrefix(o.id, fix.ChainA+":")
+			if t := in.objs[st.target]; t != nil && st.target != name && c16Chain(t) != "" && c16Chain(t) == c16Chain(o) {
+				if t.kind == "appchain" && o.kind == "rule" && strings.HasPrefix(e.trigger, "cascade:") {
+					cascade = true
+				}
+				if t.kind == "rule" && e.trigger == "peer:"+st.trigger {
+					direct = true
+				}
+			}
 			if !direct && !cascade {
 				continue
+			}
+			if o.kind == "rule" && e.trigger == "cascade:clear" && c16BuiltinRule[o.id] {
+				dst = "bindable" // declared in the rule FSM's callback: a built-in rule is bindable again after a clear
 			}
 			if e.to == "*last" || dst == to {
 				okEdge = true
@@ -328,12 +408,18 @@ func (in *c16Inst) check(c *mc.Ctx, path []string) {
 			want = "activating"
 		case "submit:logout":
 			want = "logouting"
+			if o.kind == "rule" {
+				want = "forbidden"
+			}
 		case "submit:register":
 			want = "registering"
 		case "submit:update":
 			want = "updating"
+			if o.kind == "rule" {
+				want = "binding"
+			}
 		case "approve":
-			want = map[string]string{"freezing": "frozen", "activating": "available", "logouting": "forbidden"}[from]
+			want = map[string]string{"freezing": "frozen", "activating": "available", "logouting": "forbidden", "binding": "available"}[from]
 			if from == "updating" {
 				want = "" // back to the status before the update: judged by the edge check
 			}
@@ -463,8 +549,8 @@ func (in *c16Inst) key() string {
 
 // second exploration: a governance admin's role record and a (non-validating) node
 var c16ObjsRoleNode = map[string]*c16Obj{
-	"admin3": {"admin3", "role", fix.Addr(fix.AdminKeys[3]).String(), constant.RoleContractAddr, contracts.RoleKey(fix.Addr(fix.AdminKeys[3]).String())},
-	"nvp":    {"nvp", "node", fix.Addr(fix.Key("c16-nvp-node")).String(), constant.NodeManagerContractAddr, "node-" + fix.Addr(fix.Key("c16-nvp-node")).String()},
+	"admin3": {"admin3", "role", fix.Addr(fix.AdminKeys[3]).String(), constant.RoleContractAddr, contracts.RoleKey(fix.Addr(fix.AdminKeys[3]).String()), ""},
+	"nvp":    {"nvp", "node", fix.Addr(fix.Key("c16-nvp-node")).String(), constant.NodeManagerContractAddr, "node-" + fix.Addr(fix.Key("c16-nvp-node")).String(), ""},
 }
 
 func c16RoleNode(c *mc.Ctx, depth int) {
@@ -511,10 +597,12 @@ func C16(c *mc.Ctx) {
 	}
 	b.Run()
 	c16RoleNode(c, depth)
+	c16Rules(c, depth)
 	fix.Cleanup()
 	c.Set("rule_role_node", "second BFS over {submit freeze/activate/logout of governance admin 3's role; submit register/update/logout of a non-validating node; conclude the open proposal by 3 approvals or 3 rejections; restart}: every status change of the role / node record must be an edge of its declared state machine for the step's trigger, forbidden is absorbing, refused operations change nothing")
+	c.Set("rule_rules", "third BFS (world with a fabric-type chain F: three built-in rules, master = SimFabric; and chain W: built-in happy rule + a deployed WASM rule as master) over {UpdateMasterRule to each rule of F and W; LogoutRule of the deployed rule and of a built-in rule; freeze/activate/logout of appchain F; conclude the open proposal by 3 approvals or 3 rejections; restart}: every status change of a rule is an edge of the rule state machine for the step's trigger (candidate: bindable->binding->available|bindable; replaced master: available->unbinding->bindable|available; logout: bindable->forbidden; cleared with a logged-out appchain), the paused appchain follows available->frozen->available, at most one rule of a chain is available at any time and exactly one when no update is open, refused operations change nothing")
 	c.Set("rule", "BFS over {submit freeze/activate/logout for appchain A, service A:s1, service B:s2; conclude the open proposal by 3 approvals or 3 rejections; IBTP request A:s1->B:s2 and B:s2->A:s1; node restart}; states merged on the abstraction (stored governance statuses, open proposal, the executor's cached service statuses, pairs used, restarts); after every step each observed status change must be an edge of the object's declared state machine for the step's trigger (or a cascade of the owning appchain), forbidden is absorbing, a refused operation changes nothing, and each request is accepted / recorded as begin-failed (status, source notified) / rejected without record according to the STORED availability of source and destination service")
-	c.Assume("state machines and the availability sets {available, freezing} are transcribed from the objects' FSM declarations (trusted base); rules, roles and nodes are exercised by C03/C15/C17, not here; the abstraction merges histories that differ only in heights, nonces, ids and counters")
+	c.Assume("state machines and the availability sets {available, freezing} are transcribed from the objects' FSM declarations (trusted base);  the abstraction merges histories that differ only in heights, nonces, ids and counters")
 	_ = contracts.TRUE
 	if c.Get("probes_checked") == 0 || c.Get("status_changes_checked") == 0 {
 		c.HarnessError("vacuous")
@@ -522,6 +610,17 @@ func C16(c *mc.Ctx) {
 }
 
 func init() {
+	Replayers["c16.govmc-rolenode"] = func(c *mc.Ctx, r map[string]interface{}) {
+		in := newC16Inst()
+		in.objs = c16ObjsRoleNode
+		in.status = in.readAll()
+		path := strList(r["ops"])
+		for i, op := range path {
+			in.apply(op)
+			in.check(c, path[:i+1])
+		}
+		in.w.R.Close()
+	}
 	Registry["C16"] = C16
 	Replayers["c16.govmc"] = func(c *mc.Ctx, r map[string]interface{}) {
 		in := newC16Inst()
